@@ -38,8 +38,9 @@ FIELDS = ["year", "month", "day", "hour", "minute", "second", "microsecond"]
 
 
 class Rw(ast.NodeTransformer):
-    def __init__(self, qual):
+    def __init__(self, qual, ctor="_nat_new"):
         self.qual = qual
+        self.ctor = ctor
 
     def visit_Call(self, node):
         self.generic_visit(node)
@@ -53,7 +54,16 @@ class Rw(ast.NodeTransformer):
         if f == "DateTime.create" or f == "cls.create":
             return ast.copy_location(ast.Call(func=ast.Name(id="_create", ctx=ast.Load()), args=node.args, keywords=node.keywords), node)
         if f in ("cls", "self.__class__", "dt.__class__", "datetime.datetime", "_datetime.datetime"):
-            return ast.copy_location(ast.Call(func=ast.Name(id="_nat_new", ctx=ast.Load()), args=node.args, keywords=node.keywords), node)
+            return ast.copy_location(ast.Call(func=ast.Name(id=self.ctor, ctx=ast.Load()), args=node.args, keywords=node.keywords), node)
+        if f == "date" and self.ctor == "_nat_date_new":
+            return ast.copy_location(ast.Call(func=ast.Name(id="_nat_date_new", ctx=ast.Load()), args=node.args, keywords=node.keywords), node)
+        if f == "self.add" and not node.args and len(node.keywords) == 1 and node.keywords[0].arg is None \
+                and ast.unparse(node.keywords[0].value) == "delta._signature":
+            return ast.copy_location(ast.Call(func=ast.Name(id="_add_signature", ctx=ast.Load()),
+                                              args=[ast.Name(id="self", ctx=ast.Load()), ast.Name(id="delta", ctx=ast.Load())], keywords=[]), node)
+        if f == "super().__add__" and len(node.args) == 1 and not node.keywords:
+            return ast.copy_location(ast.Call(func=ast.Name(id="_native_add", ctx=ast.Load()),
+                                              args=[ast.Name(id="self", ctx=ast.Load())] + node.args, keywords=[]), node)
         if f == "self.__class__.create":
             return ast.copy_location(ast.Call(func=ast.Name(id="_create", ctx=ast.Load()), args=node.args, keywords=node.keywords), node)
         if f == "_datetime.datetime.__add__" and len(node.args) == 2 and not node.keywords:
@@ -65,6 +75,19 @@ class Rw(ast.NodeTransformer):
             return ast.copy_location(ast.Call(func=ast.Attribute(value=ast.Name(id="self", ctx=ast.Load()), attr="_native_astimezone",
                                                                   ctx=ast.Load()), args=node.args, keywords=[]), node)
         return node
+
+
+def _spec_fn(tree, qual, assume, ctor="_nat_new"):
+    from .g13_stdlib_zone import Specialise
+    sp = Specialise(qual, assume)
+    fn = sp.visit(copy.deepcopy(P.find_function(tree, qual)))
+    if sp.used != set(assume):
+        raise P.Unsupported(f"{qual}: assumptions used {sorted(sp.used)} differ from the expected {sorted(assume)}")
+    fn = Rw(qual, ctor).visit(fn)
+    ast.fix_missing_locations(fn)
+    if "isinstance" in ast.unparse(fn):
+        raise P.Unsupported(f"{qual}: `isinstance` is left after specialisation")
+    return fn
 
 
 def _fn(tree, qual, drop_first=None):
@@ -385,6 +408,139 @@ def gen(_shared):
     if rett != DT or monad != "result":
         raise P.Unsupported("from_timestamp: unexpected type")
     out.append(text)
+
+    # ---------------- DateTime.subtract and the operator entry points (Duration / Interval operands; the plain-timedelta route passes a FLOAT
+    # number of seconds to add() and is NOT translated: it stays hand-written in Model/CalendarArith.v dt_add_fsec + pinned)
+    OP = "gop"
+    cd.kwmethods[("add", DT)] = ("glue_DateTime_add", aparams, {p_: "0" for p_ in aparams}, [Z] * 8, DT, "result")
+    fn = _fn(dt_tree, "DateTime.subtract")
+    if [a.arg for a in fn.args.args] != ["self"] + aparams:
+        raise P.Unsupported("DateTime.subtract: unexpected signature")
+    text, rett, monad = _tr(cd, fn, "glue_DateTime_subtract", {p_: Z for p_ in aparams}, DT, "translated from src/pendulum/datetime.py :: DateTime.subtract",
+                            force_result=True)
+    out.append(text)
+    cd.kwmethods[("subtract", DT)] = ("glue_DateTime_subtract", aparams, {p_: "0" for p_ in aparams}, [Z] * 8, DT, "result")
+    co = copy.copy(cd)
+    co.attrs = dict(cd.attrs)
+    co.attrs.update({"years": ("op_years", Z), "months": ("op_months", Z), "weeks": ("op_weeks", Z), "remaining_days": ("op_rdays", Z),
+                     "hours": ("op_hours", Z), "minutes": ("op_minutes", Z), "remaining_seconds": ("op_rsecs", Z),
+                     "microseconds": ("op_micro", Z), "days": ("op_days", Z)})
+    co.funcs = dict(cd.funcs)
+    out.append("(* BY HAND: self.add( **delta._signature ): the eight keyword values the Duration was built with; no _signature -> AttributeError *)\n"
+               "Definition g_add_signature (d : gdt) (o : gop) : result gdt :=\n"
+               "  match op_sig o with\n  | [y; mo; wk; dd; h; mi; s; us] => glue_DateTime_add d y mo wk dd h mi s us\n  | _ => Raise E_AttributeError\n  end.\n"
+               "(* BY HAND: datetime.__add__(self, other) for any timedelta subclass: the native addition of its microseconds *)\n"
+               "Definition nat_add_op (d : gdt) (o : gop) : result gdt := nat_add d (op_us o).\n")
+    co.funcs["_add_signature"] = ("g_add_signature", [DT, OP], DT, "result")
+    co.funcs["_native_add"] = ("nat_add_op", [DT, OP], DT, "result")
+    IV, DU = "isinstance(delta, pendulum.Interval)", "isinstance(delta, pendulum.Duration)"
+    for variant, assume in (("interval", {IV: True}), ("duration", {IV: False, DU: True})):
+        fn = _spec_fn(dt_tree, "DateTime._add_timedelta_", assume)
+        text, rett, monad = _tr(co, fn, f"glue_DateTime_add_timedelta_{variant}", {"delta": OP}, DT,
+                                f"translated from src/pendulum/datetime.py :: DateTime._add_timedelta_ SPECIALISED to {assume}", force_result=True)
+        out.append(text)
+    fn = _spec_fn(dt_tree, "DateTime._subtract_timedelta", {DU: True})
+    text, rett, monad = _tr(co, fn, "glue_DateTime_subtract_timedelta_duration", {"delta": OP}, DT,
+                            "translated from src/pendulum/datetime.py :: DateTime._subtract_timedelta SPECIALISED to a Duration / Interval operand",
+                            force_result=True)
+    out.append(text)
+    out.append("(* BY HAND: dispatch on the class of the operand; the plain-timedelta route (float seconds) is not translated: E_NotImplemented marks it *)\n"
+               "Definition g_add_timedelta (d : gdt) (o : gop) : result gdt :=\n"
+               "  if op_kind o =? 2 then glue_DateTime_add_timedelta_interval d o\n"
+               "  else if op_kind o =? 1 then glue_DateTime_add_timedelta_duration d o else Raise E_NotImplemented.\n"
+               "Definition g_subtract_timedelta (d : gdt) (o : gop) : result gdt :=\n"
+               "  if (op_kind o =? 2) || (op_kind o =? 1) then glue_DateTime_subtract_timedelta_duration d o else Raise E_NotImplemented.\n")
+    co.kwmethods = dict(cd.kwmethods)
+    co.kwmethods[("_add_timedelta_", DT)] = ("g_add_timedelta", ["delta"], {}, [OP], DT, "result")
+    co.kwmethods[("_subtract_timedelta", DT)] = ("g_subtract_timedelta", ["delta"], {}, [OP], DT, "result")
+    # __add__: the stack inspection becomes an explicit boolean parameter
+    if sum(1 for n in ast.walk(dt_tree) if isinstance(n, ast.Name) and n.id == "traceback") != 1:
+        raise P.Unsupported("datetime.py: traceback is used somewhere else than in DateTime.__add__")
+    fn = _spec_fn(dt_tree, "DateTime.__add__", {"isinstance(other, datetime.timedelta)": True})
+    got = [ast.unparse(st) for st in fn.body]
+    want = ["caller = traceback.extract_stack(limit=2)[0].name", "if caller == 'astimezone':\n    return _native_add(self, other)",
+            "return self._add_timedelta_(other)"]
+    if got != want:
+        raise P.Unsupported(f"DateTime.__add__: the stack-inspection shape changed: {got}")
+    fn.body = [ast.parse("if called_from_astimezone:\n    return _native_add(self, other)").body[0], fn.body[2]]
+    fn.args.args.append(ast.arg(arg="called_from_astimezone"))
+    ast.fix_missing_locations(fn)
+    text, rett, monad = _tr(co, fn, "glue_DateTime___add__", {"other": OP, "called_from_astimezone": B}, DT,
+                            "translated from src/pendulum/datetime.py :: DateTime.__add__ (other a timedelta); RECOGNISED SHAPE: "
+                            "`caller = traceback.extract_stack(limit=2)[0].name; if caller == 'astimezone': ...` -> the explicit parameter "
+                            "called_from_astimezone (True exactly when the calling frame is a function named astimezone: datetime.astimezone's "
+                            "`self - offset` / tz.fromutc chain; every other caller, __radd__ included, passes False)", force_result=True)
+    out.append(text)
+    co.kwmethods[("__add__", DT)] = ("glue_DateTime___add__", ["other", "called_from_astimezone"], {"called_from_astimezone": "false"}, [OP, B], DT, "result")
+    fn = _fn(dt_tree, "DateTime.__radd__")
+    text, rett, monad = _tr(co, fn, "glue_DateTime___radd__", {"other": OP}, DT, "translated from src/pendulum/datetime.py :: DateTime.__radd__", force_result=True)
+    out.append(text)
+    subf = [n for n in next(c for c in dt_tree.body if isinstance(c, ast.ClassDef) and c.name == "DateTime").body
+            if isinstance(n, ast.FunctionDef) and n.name == "__sub__" and not P._is_overload(n)]
+    if len(subf) != 1 or ast.unparse(subf[0].body[0]) != "if isinstance(other, datetime.timedelta):\n    return self._subtract_timedelta(other)":
+        raise P.Unsupported("DateTime.__sub__: the timedelta branch changed")
+    out.append("(* DateTime.__sub__, timedelta operand: its first statement is checked to be\n"
+               "     if isinstance(other, datetime.timedelta): return self._subtract_timedelta(other)\n"
+               "   (the datetime-operand branch builds an Interval: not translated) *)\n"
+               "Definition glue_DateTime___sub___timedelta (d : gdt) (o : gop) : result gdt := g_subtract_timedelta d o.\n")
+
+    # ---------------- Date.add / subtract / _add_timedelta / _subtract_timedelta / __add__ / __sub__ (timedelta operand)
+    date_tree = ast.parse(open(src("date.py")).read())
+    GD = "gdate"
+    cg = P.Ctx()
+    cg.int_boolop = cg.obj_fragment = cg.conservative_exit = True
+    cg.attrs.update({"year": ("gd_year", Z), "month": ("gd_month", Z), "day": ("gd_day", Z)})
+    cg.attrs.update({k_: v_ for k_, v_ in co.attrs.items() if v_[0].startswith("op_")})
+    cg.kwfuncs["_nat_date_new"] = ("nat_date_new", ["year", "month", "day"], {}, [Z, Z, Z], GD, "result")
+    cg.kwfuncs["add_duration"] = ("g_add_duration_date", ["dt", "years", "months", "weeks", "days"], {p_: "0" for p_ in ("years", "months", "weeks", "days")},
+                                  [GD, Z, Z, Z, Z], GD, "result")
+    dparams = ["years", "months", "weeks", "days"]
+    if "from pendulum.helpers import add_duration" not in [ast.unparse(n) for n in date_tree.body if isinstance(n, ast.ImportFrom)] \
+            or "from datetime import date" not in [ast.unparse(n) for n in date_tree.body if isinstance(n, ast.ImportFrom)]:
+        raise P.Unsupported("date.py: add_duration / date are not imported as expected")
+    dcls = next((c for c in date_tree.body if isinstance(c, ast.ClassDef) and c.name == "Date"), None)
+    if dcls is None or any(isinstance(n, ast.FunctionDef) and n.name in ("__new__", "__init__") for n in dcls.body):
+        raise P.Unsupported("date.py: class Date missing or it defines __new__/__init__")
+
+    def dfn(qual, assume=None):
+        if assume is not None:
+            return _spec_fn(date_tree, qual, assume, "_nat_date_new")
+        f_ = Rw(qual, "_nat_date_new").visit(copy.deepcopy(P.find_function(date_tree, qual)))
+        ast.fix_missing_locations(f_)
+        return f_
+    fn = dfn("Date.add")
+    if [a.arg for a in fn.args.args] != ["self"] + dparams:
+        raise P.Unsupported("Date.add: unexpected signature")
+    text, rett, monad = _tr(cg, fn, "glue_Date_add", {p_: Z for p_ in dparams}, GD, "translated from src/pendulum/date.py :: Date.add", force_result=True)
+    out.append(text)
+    cg.kwmethods[("add", GD)] = ("glue_Date_add", dparams, {p_: "0" for p_ in dparams}, [Z] * 4, GD, "result")
+    fn = dfn("Date.subtract")
+    text, rett, monad = _tr(cg, fn, "glue_Date_subtract", {p_: Z for p_ in dparams}, GD, "translated from src/pendulum/date.py :: Date.subtract", force_result=True)
+    out.append(text)
+    cg.kwmethods[("subtract", GD)] = ("glue_Date_subtract", dparams, {p_: "0" for p_ in dparams}, [Z] * 4, GD, "result")
+    for meth, coqbase in (("_add_timedelta", "glue_Date_add_timedelta"), ("_subtract_timedelta", "glue_Date_subtract_timedelta")):
+        for variant, val in (("duration", True), ("plain", False)):
+            fn = dfn("Date." + meth, {DU: val})
+            text, rett, monad = _tr(cg, fn, f"{coqbase}_{variant}", {"delta": OP}, GD,
+                                    f"translated from src/pendulum/date.py :: Date.{meth} SPECIALISED to isinstance(delta, pendulum.Duration) = {val}",
+                                    force_result=True)
+            out.append(text)
+    out.append("(* BY HAND: dispatch on the class of the operand (an Interval is a Duration) *)\n"
+               "Definition g_date_add_timedelta (d : gdate) (o : gop) : result gdate :=\n"
+               "  if op_kind o =? 0 then glue_Date_add_timedelta_plain d o else glue_Date_add_timedelta_duration d o.\n"
+               "Definition g_date_subtract_timedelta (d : gdate) (o : gop) : result gdate :=\n"
+               "  if op_kind o =? 0 then glue_Date_subtract_timedelta_plain d o else glue_Date_subtract_timedelta_duration d o.\n")
+    cg.kwmethods[("_add_timedelta", GD)] = ("g_date_add_timedelta", ["delta"], {}, [OP], GD, "result")
+    cg.kwmethods[("_subtract_timedelta", GD)] = ("g_date_subtract_timedelta", ["delta"], {}, [OP], GD, "result")
+    fn = dfn("Date.__add__", {"isinstance(other, timedelta)": True})
+    text, rett, monad = _tr(cg, fn, "glue_Date___add__", {"other": OP}, GD, "translated from src/pendulum/date.py :: Date.__add__ (other a timedelta)",
+                            force_result=True)
+    out.append(text)
+    dsub = [n for n in dcls.body if isinstance(n, ast.FunctionDef) and n.name == "__sub__" and not P._is_overload(n)]
+    if len(dsub) != 1 or ast.unparse(dsub[0].body[0]) != "if isinstance(other, timedelta):\n    return self._subtract_timedelta(other)":
+        raise P.Unsupported("Date.__sub__: the timedelta branch changed")
+    out.append("(* Date.__sub__, timedelta operand (first statement checked; the date-operand branch builds an Interval: not translated) *)\n"
+               "Definition glue_Date___sub___timedelta (d : gdate) (o : gop) : result gdate := g_date_subtract_timedelta d o.\n")
 
     fn = _fn(dt_tree, "DateTime.int_timestamp")
     text, rett, monad = _tr(cd, fn, "glue_DateTime_int_timestamp", {}, DT, "translated from src/pendulum/datetime.py :: DateTime.int_timestamp (a property)",
